@@ -80,8 +80,12 @@ def assigned_names(stmts):
     for n in ast.walk(st):
       if isinstance(n, ast.Name) and isinstance(n.ctx, (ast.Store, ast.Del)):
         out.add(n.id)
-      elif isinstance(n, ast.Call) and isinstance(n.func, ast.Attribute) and n.func.attr in MUTATORS and isinstance(n.func.value, ast.Name):
-        out.add(n.func.value.id)
+      elif isinstance(n, ast.Call) and isinstance(n.func, ast.Attribute) and n.func.attr in MUTATORS:
+        b = n.func.value
+        while isinstance(b, ast.Subscript):   # xs[i].append(...) mutates xs
+          b = b.value
+        if isinstance(b, ast.Name):
+          out.add(b.id)
       elif isinstance(n, (ast.Yield, ast.YieldFrom)):
         out.add('_out')
       elif isinstance(n, (ast.Subscript, ast.Attribute)) and isinstance(n.ctx, (ast.Store, ast.Del)):
@@ -339,11 +343,20 @@ class Exec(Ops):
     if isinstance(b, SV) and isinstance(b.sort, Union):
       U = b.sort
       if self.spec_mode:
-        for c in U.ctors.values():
-          for fn, _ in c.fields:
-            if fn == attr:
-              return SV(U.field_sort(c.name, fn), U.acc(c.name, fn, b.t))
-        raise OutsideSubset(f'{U} has no field {attr}')
+        hooks = getattr(U, 'attr_hooks', None)
+        if hooks and attr in hooks:
+          return hooks[attr](self, b)
+        owners = [c for c in U.ctors.values() if any(fn == attr for fn, _ in c.fields)]
+        if not owners:
+          raise OutsideSubset(f'{U} has no field {attr}')
+        fs = U.field_sort(owners[0].name, attr)
+        if any(U.field_sort(c.name, attr).name != fs.name for c in owners):
+          raise OutsideSubset(f'{U}.{attr}: constructors disagree on the field sort')
+        # several constructors share the field name: select by constructor
+        t = U.acc(owners[-1].name, attr, b.t)
+        for c in reversed(owners[:-1]):
+          t = z3.If(U.is_(c.name, b.t), U.acc(c.name, attr, b.t), t)
+        return SV(fs, t)
       hooks = getattr(U, 'attr_hooks', None)
       if hooks and attr in hooks:
         return hooks[attr](self, b)
@@ -500,6 +513,9 @@ class Exec(Ops):
         a, b = self.coerce(a, INT), self.coerce(b, INT)
       else:
         raise OutsideSubset(f'conditional expression with sorts {a.sort} / {b.sort}')
+    if a.sort is BOOL and b.sort is BOOL:
+      # propositional form: lets the solver normalise quantifiers inside the branches
+      return SV(BOOL, z3.Or(z3.And(c, a.t), z3.And(z3.Not(c), b.t)))
     return SV(a.sort, z3.If(c, a.t, b.t))
 
   def e_Tuple(self, n, env):
@@ -831,6 +847,8 @@ class Exec(Ops):
       hint = (getattr(self.spec, 'locals', None) or {}).get(tg.id)
       if hint is not None and not isinstance(v, Box) and not isinstance(v, (Closure,)):
         v = self.coerce(v, hint)
+        if isinstance(hint, SeqOf) and hint.elem.mutable and not self.spec_mode:
+          v = self.new_box(v)  # a tuple/list of mutable containers: elements are mutated through it
       if tg.id in env.vars.get('__nonlocal__', ()):  # nonlocal declared
         env.parent.set_nonlocal(tg.id, v)
       else:
